@@ -167,8 +167,12 @@ func (r *Reporter) Finish() int {
 	dir := filepath.Join(OutDir(), "evidence", "replays")
 	_ = os.MkdirAll(dir, 0o755)
 	sort.Slice(r.newV, func(i, j int) bool { return r.newV[i].Key < r.newV[j].Key })
+	maxReplays := 5
+	if os.Getenv("VERIF_KEYS") == "all" { // diagnostics: a replay for every kept violation
+		maxReplays = 50
+	}
 	for i, v := range r.newV {
-		if i >= 5 {
+		if i >= maxReplays {
 			break
 		}
 		h := sha256.Sum256([]byte(v.Key))
